@@ -199,8 +199,18 @@ fn boxed_op<'a>(o: Op) -> BOp<'a> {
     }
 }
 
-fn finish<'a>(p: impl Parser<'a, &'a str, String, Ex<'a>> + 'a) -> BP<'a> {
-    p.then(any().repeated().to_slice()).map(|(t, rest): (String, &str)| format!("{t}|{rest}")).boxed()
+/// The expression parser is run twice from the same position: first under `to_slice().rewind()` - i.e. in CHECK
+/// mode, where operators go through their `*_check` entry points - to observe how much it consumes there, then
+/// in emit mode for the tree.  A check-mode extent that differs from the tokens of the tree is rendered into
+/// the output (and so reported as a mismatch with the reference).
+fn finish<'a>(p: impl Parser<'a, &'a str, String, Ex<'a>> + Clone + 'a) -> BP<'a> {
+    p.clone()
+        .to_slice()
+        .rewind()
+        .then(p)
+        .then(any().repeated().to_slice())
+        .map(|((chk, t), rest): ((&str, String), &str)| if chk == flatten(&t) { format!("{t}|{rest}") } else { format!("{t}|{rest} <but in check mode the expression consumed {chk:?}>") })
+        .boxed()
 }
 
 fn atom<'a>() -> impl Parser<'a, &'a str, String, Ex<'a>> + Clone {
